@@ -72,6 +72,12 @@ CLAIMED = {
                      "count lemmas by induction on every run. Ids occur only under ==, hence renaming invariance.",
                 note="Correctness at a threshold, matching scores and thresholds are named functions (C03/C06/C10). Not under contract: CLEAR.__init__ (sum over "
                      "frames), tp_matching_score accumulation, _sum_clear and the scenario clauses (perfect tracker, new id, exchange) - native harness (bounded).", ref="5/C05"),
+    "C11": dict(text="ClassificationAccuracy is verified: the counting loop (TP + FP = number of pairs, TP = number of label-correct pairs) and the four formulas "
+                     "with their range in [0,1] and the all-correct case. The identity-based pairing functions are checked on the real code exhaustively up to a "
+                     "stated bound (bounded stand-in, not counted as proved).",
+                note="Bounded part: all label assignments of up to 3 estimates x 3 ground truths over 2 camera frames, unique uuids, both uuid-first settings: each "
+                     "object used at most once, pairs within one camera frame, pairing rule respected, number of label-correct pairs maximal. list.remove on "
+                     "working copies in nested loops is outside the engine's list model.", ref="5/C11"),
 }
 NA_REASON = "check not built yet in this session (planned in DESIGN.md section 5); not claimed"
 ALL = [f"C{n:02d}" for n in range(1, 21)]
